@@ -731,7 +731,8 @@ def check_run(ctx, method, numba, banded_solver, x, y, kw, desc, style='', fitte
             ctx.fail(f'basis-params:{method}',
                      f'{method}(num_knots={num_knots}, spline_degree={k}) solved with a basis of num_knots={bs.num_knots}, '
                      f'spline_degree={bs.spline_degree} ({bs._num_bases} functions)', desc)
-            return 1
+            nbad += 1
+            break    # the dense oracle below still runs and reports under its own key
     for idx, rec in enumerate(cap.calls):
         w, yy = rec['w'], rec['y']
         lam_eff = lam
